@@ -358,9 +358,25 @@ func symFmt(format string, args []value, fr *frame) value {
 			out = append(out, byte('%'))
 			continue
 		}
+		if ai >= len(args) {
+			for _, b := range []byte("%!" + string(verb) + "(MISSING)") {
+				out = append(out, b)
+			}
+			continue
+		}
 		a := args[ai].(iface)
 		ai++
 		v := a.v
+		if a.t == nil {
+			txt := "%!" + string(verb) + "(<nil>)"
+			if verb == 'v' {
+				txt = "<nil>"
+			}
+			for _, b := range []byte(txt) {
+				out = append(out, b)
+			}
+			continue
+		}
 		// error / Stringer
 		if a.t != nil && (verb == 's' || verb == 'v' || verb == 'w' || verb == 'q') {
 			ms := fr.i.prog.MethodSets.MethodSet(a.t)
@@ -372,16 +388,10 @@ func symFmt(format string, args []value, fr *frame) value {
 		}
 		switch x := v.(type) {
 		case symstr:
-			if verb == 'q' {
-				out = append(out, byte('"'))
-			}
-			out = append(out, x...)
-			if verb == 'q' {
-				out = append(out, byte('"'))
-			}
+			out = append(out, fmtSymBytes(fr, []value(x), verb)...)
 		case []value:
-			if verb == 's' && anySym(x) {
-				out = append(out, x...)
+			if anySym(x) {
+				out = append(out, fmtSymBytes(fr, x, verb)...)
 			} else {
 				for _, b := range []byte(fmt.Sprintf(spec+string(verb), bytesOf(x))) {
 					out = append(out, b)
@@ -505,4 +515,37 @@ func maskedBelow(t string, n int) bool {
 		}
 	}
 	return v < uint64(n)
+}
+
+// fmtSymBytes formats a string / byte slice holding symbolic bytes.
+func fmtSymBytes(fr *frame, cells []value, verb byte) []value {
+	switch verb {
+	case 's', 'v', 'w':
+		return cells
+	case 'q':
+		// strconv.Quote decides per byte how to escape: interpret its source
+		q := fr.i.prog.ImportedPackage("strconv").Func("Quote")
+		r := call(fr.i, fr, 0, q, []value{mkStr(cells)})
+		rc, _ := strCells(r)
+		return rc
+	case 'x', 'X':
+		digits := "0123456789abcdef"
+		if verb == 'X' {
+			digits = "0123456789ABCDEF"
+		}
+		dc, _ := strCells(digits)
+		var out []value
+		for _, c := range cells {
+			if cb, ok := c.(byte); ok {
+				out = append(out, digits[cb>>4], digits[cb&15])
+				continue
+			}
+			s := c.(sym)
+			hi := sym{fmt.Sprintf("(bvlshr %s #x04)", s.t), 8, false}
+			lo := sym{fmt.Sprintf("(bvand %s #x0f)", s.t), 8, false}
+			out = append(out, selectCell(dc, hi), selectCell(dc, lo))
+		}
+		return out
+	}
+	panic(abortPath{"engine: unsupported format verb %" + string(verb) + " for symbolic bytes"})
 }
